@@ -7,6 +7,8 @@ pub mod stubs;
 #[macro_use]
 pub mod util;
 #[cfg(kani)]
+mod common;
+#[cfg(kani)]
 mod c41;
 #[cfg(kani)]
 mod c42;
